@@ -245,7 +245,9 @@ def run_case(ck, case, reqs, pending):
     if not (nonneg or path != "inv"):
         # inversion path with negatives allowed: exact solution of the square system (minimises over all candidates)
         res = float(np.max(np.abs(Mp @ z - bp)))
-        if res > 1e-9 * math.sqrt(scale):
+        # backward error of a float solve: relative to |M| |z| (a nearly singular square system has solutions of huge norm)
+        back = 1e-13 * float(np.max(np.sum(np.abs(Mp), axis=1))) * float(np.max(np.abs(z))) * Mp.shape[0]
+        if res > 1e-9 * math.sqrt(scale) + back:
             ck.fail("the inversion path returns the exact solution of the square augmented system", f"residual {res}", case)
         ck.count("inv_with_negative_entries")
     sv = np.linalg.svd(Mref, compute_uv=False)
@@ -268,6 +270,8 @@ def run_case(ck, case, reqs, pending):
         ck.count("consistent_systems")
     # ------------------------------------------------------------------ K
     eps = EPS[path] * math.sqrt(scale) * Mp.shape[0]
+    if path == "inv":
+        eps += 1e-13 * float(np.max(np.sum(np.abs(Mp), axis=1))) * float(np.max(np.abs(z))) * Mp.shape[0]      # backward error, as above
     if path == "lsq_linear":
         N = A.T @ A
         Mchk = np.block([[N, np.ones((n, 1))], [np.ones((1, n)), np.zeros((1, 1))]])
